@@ -203,7 +203,7 @@ func c18YAML(c c18Case) string {
 var c18GraphLib = map[string]*graphs.Graph{}
 
 func c18InitGraphs() {
-	for _, n := range []string{"G1", "G2", "G3", "G13", "G14"} {
+	for _, n := range []string{"G1", "G2", "G3", "G13", "G14", "G18"} {
 		c18GraphLib[n] = graphs.Build(n)
 	}
 	for _, n := range []string{"old-a", "old-b", "old-c"} {
@@ -490,6 +490,8 @@ func (w *c18World) moveSource() {
 			}
 			move("v1", "G3", "G1")
 			move("dev", "G2", "G13")
+			// an index tag that moves to ANOTHER index (the platform child changes with it)
+			move("latest", "G18", "G3")
 		}
 	})
 }
